@@ -25,6 +25,11 @@ func TestCheck(t *testing.T) {
 		t.Fatalf("unknown VERIF_PROP %q", env.Prop)
 	}
 	rep := core.NewReport(env, "apiwalk")
+	if env.Replay != "" && env.Prop == "C12" {
+		replayC12(env, rep)
+		rep.Write(env.Out)
+		return
+	}
 	f(env, rep)
 	rep.Write(env.Out)
 }
